@@ -29,12 +29,22 @@ struct PGen<'a> {
     uniq: u32,
     /// calls to `helper` allowed (not inside the header itself)
     calls_helper: bool,
+    /// > 0: keep everything on the current source line (whole loops / if-else chains on one line)
+    one_line: u32,
 }
 
 impl<'a> PGen<'a> {
     fn emit(&mut self, s: &str) {
-        // several statements per line now and then
-        if !self.cur.is_empty() && self.rng.chance(1, 3) && self.cur.len() < 90 {
+        // a statement spread over two lines
+        if let Some((a, b)) = s.split_once('\n') {
+            self.emit(a);
+            self.flush();
+            self.cur = b.to_string();
+            return;
+        }
+        // several statements per line now and then; whole constructs when `one_line` is set
+        let join = if self.one_line > 0 { self.cur.len() < 600 } else { self.rng.chance(1, 3) && self.cur.len() < 90 };
+        if !self.cur.is_empty() && join {
             self.cur.push(' ');
             self.cur.push_str(s);
         } else {
@@ -94,9 +104,10 @@ impl<'a> PGen<'a> {
     }
     fn simple(&mut self, vars: &[String], fidx: usize) -> String {
         let e = self.expr(vars, fidx);
-        match self.rng.below(4) {
+        match self.rng.below(5) {
             0 => "g++;".to_string(),
             1 => format!("r = (r + {}) % 1000;", e),
+            4 if self.one_line == 0 => format!("r = (r +\n    {}) % 1000;", e),
             2 => format!("r = ({} * 3 + r) % 997;", e),
             _ => format!("r += {} > 2;", e),
         }
@@ -109,6 +120,17 @@ impl<'a> PGen<'a> {
     }
     fn stmt(&mut self, vars: &mut Vec<String>, depth: u32, fidx: usize, in_loop: bool) {
         let k = if depth == 0 { self.rng.below(3) } else { self.rng.below(12) };
+        // now and then a whole compound statement (with the loops inside it) sits on one line
+        let squeeze = k >= 3 && self.rng.chance(1, 5);
+        if squeeze {
+            self.one_line += 1;
+        }
+        self.stmt_k(k, vars, depth, fidx, in_loop);
+        if squeeze {
+            self.one_line -= 1;
+        }
+    }
+    fn stmt_k(&mut self, k: u64, vars: &mut Vec<String>, depth: u32, fidx: usize, in_loop: bool) {
         match k {
             0 | 1 | 2 => {
                 let s = self.simple(vars, fidx);
@@ -211,7 +233,7 @@ struct Program {
 
 fn gen_program(rng: &mut Rng) -> Program {
     let nfun = rng.range(1, 3) as usize;
-    let mut g = PGen { rng, lines: vec![], cur: String::new(), nfun, uniq: 0, calls_helper: true };
+    let mut g = PGen { rng, lines: vec![], cur: String::new(), nfun, uniq: 0, calls_helper: true, one_line: 0 };
     g.nl("#include <stdlib.h>");
     g.nl("int g;");
     g.nl("#include \"inc.h\"");
@@ -226,8 +248,15 @@ fn gen_program(rng: &mut Rng) -> Program {
         let mut vars = vec!["a".to_string(), "b".to_string(), "r".to_string()];
         let depth = g.rng.range(1, 3) as u32;
         let n = g.rng.range(2, 5);
+        let whole = g.rng.chance(1, 8);
+        if whole {
+            g.one_line += 1;
+        }
         for _ in 0..n {
             g.stmt(&mut vars, depth, f, false);
+        }
+        if whole {
+            g.one_line -= 1;
         }
         g.flush();
         if g.rng.chance(1, 3) {
@@ -265,7 +294,7 @@ fn gen_program(rng: &mut Rng) -> Program {
     let main_c = g.lines.join("\n") + "\n";
 
     // the header: a function defined in an included file
-    let mut h = PGen { rng: g.rng, lines: vec![], cur: String::new(), nfun: 0, uniq: 100, calls_helper: false };
+    let mut h = PGen { rng: g.rng, lines: vec![], cur: String::new(), nfun: 0, uniq: 100, calls_helper: false, one_line: 0 };
     h.nl("/* included header */");
     h.nl("static int helper(int a) {");
     h.nl("  int b = a + 1, r = 0;");
@@ -404,6 +433,69 @@ fn matches_inflow_outflow(
         }
     }
     any
+}
+
+/// Named finding matcher `C08-entry-arc-zero-function-zeroed`: every difference is a line count that
+/// grcov reports as 0, and every function that lists the line is reported "not executed" by grcov
+/// (the count of its first arc is 0, so `add_line_count`/`finalize` zero all its lines) although
+/// some block of that function has a non-zero counter – again only possible when the measured
+/// counters are not flow-consistent (LLVM 14, split critical edge).
+fn matches_entry_zero(
+    ours: &BTreeMap<String, GcovFile>,
+    theirs: &BTreeMap<String, GcovFile>,
+    fns: &[FnDump],
+) -> bool {
+    if ours.keys().ne(theirs.keys()) {
+        return false;
+    }
+    let mut any = false;
+    for (k, o) in ours {
+        let t = &theirs[k];
+        if o.lines.keys().ne(t.lines.keys()) {
+            return false;
+        }
+        for (l, n) in &o.lines {
+            if t.lines[l] == *n {
+                continue;
+            }
+            any = true;
+            if *n != 0 {
+                return false;
+            }
+            let owners: Vec<&FnDump> =
+                fns.iter().filter(|f| &f.file == k && f.blocks.iter().any(|b| b.lines.contains(l))).collect();
+            if owners.is_empty()
+                || !owners.iter().all(|f| {
+                    f.blocks.first().map(|b| b.outflow == 0).unwrap_or(false)
+                        && f.blocks.iter().any(|b| b.counter > 0 || b.inflow > 0)
+                })
+            {
+                return false;
+            }
+        }
+        // executed flags may differ only for such functions: not compared here (llvm-cov's
+        // "called" is the same first-arc count)
+        let fo: Vec<(&String, bool)> = o.funcs.iter().map(|(n, c)| (n, *c > 0)).collect();
+        let ft: Vec<(&String, bool)> = t.funcs.iter().map(|(n, c)| (n, *c > 0)).collect();
+        if fo != ft {
+            return false;
+        }
+    }
+    any
+}
+
+fn classify(
+    ours: &BTreeMap<String, GcovFile>,
+    theirs: &BTreeMap<String, GcovFile>,
+    fns: &[FnDump],
+) -> Option<&'static str> {
+    if matches_inflow_outflow(ours, theirs, fns) {
+        Some("C08-single-block-line-outflow")
+    } else if matches_entry_zero(ours, theirs, fns) {
+        Some("C08-entry-arc-zero-function-zeroed")
+    } else {
+        None
+    }
 }
 
 fn diff_gcov(ours: &BTreeMap<String, GcovFile>, theirs: &BTreeMap<String, GcovFile>) -> Option<String> {
@@ -605,12 +697,10 @@ fn check_compiled(
                     let mut cj = case.clone();
                     cj["variant"] = json!(what);
                     let fns = run_dump(&c.gcno, ds).map(|d| dump_functions(&d)).unwrap_or_default();
-                    let finding = if matches_inflow_outflow(&ours, &c.gcov, &fns) {
-                        rep.count("program.finding.single_block_line_outflow");
-                        Some("C08-single-block-line-outflow")
-                    } else {
-                        None
-                    };
+                    let finding = classify(&ours, &c.gcov, &fns);
+                    if let Some(f) = finding {
+                        rep.count(&format!("program.finding.{}", f));
+                    }
                     rep.fail("oracle", finding, format!("Gcno::compute ({}) differs from llvm-cov gcov: {}", what, d), cj);
                 }
                 if sample {
@@ -863,9 +953,27 @@ fn synthetic_llvm_cov_stream(rep: &mut Report, rng: &mut Rng) {
                 }
                 *items = keep;
             }
+            // like LLVM: the function's own line is listed on its first block
+            let first = f.arcs[0].1;
+            match f.lines.iter_mut().find(|(b, _)| *b == first) {
+                Some((_, items)) => items.insert(1, LineItem::Line(f.start)),
+                None => f.lines.insert(0, (first, vec![LineItem::File(b"syn.c".to_vec()), LineItem::Line(f.start)])),
+            }
             // no fake arcs: llvm-cov has no notion of them
             for a in f.arcs.iter_mut() {
                 a.2 &= !2;
+            }
+            // LLVM notes have no self arcs and no parallel arcs (llvm-cov ignores self arcs as
+            // "bad input"): drop them (they are never needed by the tree)
+            let mut seen: Vec<(u32, u32)> = Vec::new();
+            let old = std::mem::take(&mut f.arcs);
+            for a in old {
+                let dup = seen.contains(&(a.0, a.1));
+                if (a.0 == a.1 || dup) && a.2 & 1 == 0 {
+                    continue;
+                }
+                seen.push((a.0, a.1));
+                f.arcs.push(a);
             }
             fns.push(f);
         }
@@ -898,7 +1006,7 @@ fn synthetic_llvm_cov_stream(rep: &mut Report, rng: &mut Rng) {
                 let ours = of_results(&rs);
                 if let Some(d) = diff_gcov(&ours, &theirs) {
                     let fd = run_dump(&gcno, &[gbytes.clone()]).map(|d| dump_functions(&d)).unwrap_or_default();
-                    let finding = if matches_inflow_outflow(&ours, &theirs, &fd) { Some("C08-single-block-line-outflow") } else { None };
+                    let finding = classify(&ours, &theirs, &fd);
                     rep.fail("oracle", finding, format!("Gcno::compute differs from llvm-cov gcov on generated notes: {}", d), case);
                 }
             }
@@ -1078,7 +1186,7 @@ pub fn replay(rep: &mut Report, case: &Value) {
                         }
                         if let Some(d) = diff_gcov(&ours, &theirs) {
                             let fd = run_dump(&gcno, &[gcda.clone()]).map(|d| dump_functions(&d)).unwrap_or_default();
-                            let finding = if matches_inflow_outflow(&ours, &theirs, &fd) { Some("C08-single-block-line-outflow") } else { None };
+                            let finding = classify(&ours, &theirs, &fd);
                             rep.fail("oracle", finding, format!("Gcno::compute differs from llvm-cov gcov on generated notes: {}", d), case.clone());
                         }
                     }
